@@ -138,6 +138,17 @@ def check(ctx: Ctx) -> str:
     from . import c25
 
     ctx.run_imported("C25", {"R3"}, c25.check)
+    ctx.rule("R5", "compile_templates selects by the extension after the *last* dot: list_templates' extension filter derives it with rsplit / rpartition / splitext")
+    lt = repo.func("environment:Environment.list_templates")
+    tests_ = [c for c in ast.walk(lt.node) if isinstance(c, ast.Compare) and any(isinstance(o, ast.In) for o in c.ops) and ast.unparse(c.comparators[-1]) == "extensions"]
+    ctx.need(bool(tests_), "list_templates: the extension membership test was not found")
+    for c in tests_:
+        how = {astq.attr_tail(x) for x in astq.calls(c.left)} | {astq.attr_tail(x) for a in ast.walk(lt.node) if isinstance(a, ast.Assign) and isinstance(c.left, ast.Name) and any(isinstance(t_, ast.Name) and t_.id == c.left.id for t_ in a.targets) for x in astq.calls(a.value)}
+        ok = bool(how & {"rsplit", "rpartition", "splitext"}) and not (how & {"split", "partition"})
+        ctx.check(ok, "extension:last-dot", "environment:Environment.list_templates", f"extension derived with {sorted(how)}",
+                  f"list_templates derives the extension with {sorted(how)}: split from the *first* dot, `mail.en.html` has the extension `en.html`, is left out of `compile_templates(extensions=['html'])`, and the precompiled set raises TemplateNotFound where source loading works",
+                  lt.loc(c))
+
     return __doc__ or ""
 
 
